@@ -6,6 +6,31 @@ ALL = ["C%02d" % i for i in range(1, 21)]
 
 # id -> (level, technique, level text, level note, design ref)
 CHECKS = {
+    "C13": ("exploration",
+            "runtime monitoring: COPY-in reference model vs per-step replies and the chunks/errors recorded by a scripted COPY handler (exhaustive short sequences + random)",
+            "Exhaustive message sequences to length 3 x 7 terminators x 4 handler variants plus random longer ones, simple and Execute mode, lock-step; chunk bytes/order, Flush/Sync invisibility, CopyDone=EOF, abort=non-EOF error, exactly one E and one Z per aborted cycle, silence for stray COPY messages. Held-on-observed.",
+            "Trusts transport/parser and the COPY model inside harness/checks/c13.go.",
+            "DESIGN.md 4/C13"),
+    "C14": ("exploration",
+            "runtime monitoring: differential (independent binary COPY encoder) + metamorphic (every split of the same stream must give the same rows) oracle; crash oracle via child process",
+            "Generated tables are encoded by the harness, cut into CopyData messages at every single position (small streams), per byte, at row boundaries with empty messages and at random cut sets; the library's row reader must return exactly the rows sent and io.EOF for every split; corruption classes and client aborts must surface as errors with only intact rows returned. Held-on-observed.",
+            "Trusts the harness's binary encoder and value canonicalisation.",
+            "DESIGN.md 4/C14"),
+    "C15": ("exploration",
+            "runtime monitoring: Go race detector over concurrent session groups + solo-vs-concurrent transcript/trace equality with yield injection; evidence counts distinct observed interleavings",
+            "Groups of 2-24 generated sessions are served solo and then concurrently (3-5 schedules each) by the real server built with -race; per-connection bytes and callback traces must equal the solo run and the race log must contain no report with a library frame. Held-on-observed interleavings only.",
+            "The race detector only sees executed accesses; yield injection widens but does not enumerate schedules.",
+            "DESIGN.md 4/C15"),
+    "C16": ("exploration",
+            "runtime monitoring: forced schedules through build-tagged schedule points (exhaustive product grid) + randomized stress under the race detector; happens-before oracles built from harness channels/atomics; crash and deadlock classification",
+            "Full product of connection state x number of Close callers x Close start mode x message kind on fresh servers, then stress rounds; a running callback observing 'all Close calls returned', Close returning while a handler is held, a panic, Serve != nil, or a library goroutine blocked after all gates were released are violations. Held-on-observed schedules.",
+            "Hooks are six no-op call sites behind the verif tag; settle periods affect detection power only.",
+            "DESIGN.md 4/C16"),
+    "C20": ("exploration",
+            "runtime monitoring: independent scanner (differential) + crash oracle (child process) + allocation counter around each call + Describe count through the wire",
+            "Exhaustive marker sequences to length 4, huge-index family and random SQL-like text; ParseParameters is called in an isolated child, compared with a hand-written scanner using big integers, with a TotalAlloc bound, and its length compared with the ParameterDescription the server announces. Held-on-observed.",
+            "Trusts the 30-line scanner; mixed-style and >65535 cases judged for totality/boundedness only.",
+            "DESIGN.md 4/C20"),
     "C07": ("exploration",
             "runtime monitoring: unique-id (unambiguous) histories replayed through a sequential namespace model per connection; concurrent same-name groups under the Go race detector with yield injection",
             "Exhaustive short histories plus random histories over a 3-name pool; the exec callback's statement id and parameter bytes and the portal Describe's column names identify the definition used, which must be the one the model resolves; concurrent groups are judged per connection and the race log must be empty. Held-on-observed.",
